@@ -49,6 +49,9 @@ CHECKS = {
  "C16": ("exploration", "runtime monitoring: lag-marker grammar oracle over each broadcast subscriber's recorded Ok/Lagged/Closed sequence",
          "Held on N seeded runs with send/receive buffers 1-4, slow, idle, late and remote subscribers: strictly increasing values, every gap marked by a Lagged error exactly there, no spurious Lagged, draining subscribers saw everything, and every reading subscriber reached the end of the broadcast by quiescence although others never read.",
          "consecutive integer values; 'never block or delay' restated as completion by quiescence", "DESIGN.md §3 C16", "rig+history"),
+ "C11": ("exploration", "runtime monitoring: sequence and classification oracle over recorded send/recv/closed histories with the close/drop event enumerated over every stream position",
+         "Every (channel kind, event, stream length, position) tuple for ports, base, lr and mpsc (1-3 senders) was executed under several seeded schedules: sender drop => everything sent then end-of-stream; receiver close => every completed send delivered, end-of-stream, later sends refused and classified as graceful; receiver drop => refused and classified as dropped; closed() futures resolved; mpsc Sending results formed Ok..Ok Err..Err with every Ok delivered.",
+         "positions are enumerated completely for lengths 1,2,4,8; schedules are sampled; bin and oneshot channels are not driven here (oneshot is covered in C04)", "DESIGN.md §3 C11", "rig+history"),
 }
 
 NOT_YET = "check not yet implemented in this commit (DESIGN.md §6a gives the order of implementation)"
